@@ -77,6 +77,7 @@ Inductive algo :=
 | AClosePositionsAfterDates (key : nat)
 | ARollPositionsAfterDates (key : nat)
 | AReplayTransactions (key : nat)
+| AUserAdjust (amount : t) (flow upd : bool)   (* a user-written algo: target.adjust(amount, update=upd, flow=flow) *)
 | AMock (id : nat) (results : list bool).    (* test double: logs its call, returns scripted results (True when exhausted) *)
 
 Record temp := mkTemp {
@@ -874,6 +875,12 @@ Fixpoint run_algo (a : algo) (tr : tree) {struct a} : result (algo * bool * tree
       same true tr
     | _ => Err EKey
     end
+  | AUserAdjust amt flow upd =>
+    tr <- tree_at p (fun _ n => match n with
+                                | NStrat g k l pp => Ok (NStrat (g_adjust amt 0 flow g) k l pp, None, upd)
+                                | _ => Err EAttr
+                                end) tr ;;
+    same true tr
   | AMock id rs =>
     tr <- upd_astate p (add_a_log id) tr ;;
     match rs with
